@@ -45,6 +45,17 @@ def handle : Handler := fun op a =>
           match (allIdx v.shape).mapM v.get? with
           | some els => pure s!"ok shape={fmtNats v.shape} data={fmtInts els}"
           | none => pure "oob"
+  | "c13_upload" => orBad do
+      -- the operand a CUDA / HIP kernel receives for a host array whose element at row-major position k is k
+      let shape ← a.nats "shape"
+      let col := (a.get? "layout").getD "row" == "col"
+      let host : NDA Int := NDA.ofFn col shape (fun i => (computeOffset i (strides shape) : Nat))
+      match deviceOperand host with
+      | none => pure "ub"
+      | some d =>
+        match (allIdx d.shape).mapM d.get? with
+        | some els => pure s!"ok shape={fmtNats d.shape} data={fmtInts els} buffer={fmtInts d.data}"
+        | none => pure "oob"
   | "c13_koff" => orBad do
       let t ← a.nat "tid"
       let b ← a.nat "bid"
